@@ -26,7 +26,7 @@ def TailOk (tail : List Step) (nPre : Nat) : Prop :=
 
 theorem putTail_ok (c : Cfg) :
     TailOk ([.flush, .check c.checksumsEqual, .mkdirs c.mkdirsFails, .rename c.renameFails] ++
-      (if c.hasMeta then [.saveMeta c.metaFails] else []) ++ [.saveInfo c.infoFails]) 3 := by
+      (if c.hasMeta then [.saveMeta c.metaFails] else [.dropMeta c.metaFails]) ++ [.saveInfo c.infoFails]) 3 := by
   intro s k ho ht
   rcases k with _ | _ | _ | _ | _ | _ | _ | k <;>
     cases c.checksumsEqual <;> cases c.mkdirsFails <;> cases c.renameFails <;> cases c.hasMeta <;>
@@ -185,7 +185,7 @@ theorem run_parts (parts : List Part) (tail : List Step) :
 theorem putObjectProg_eq (c : Cfg) :
     putObjectProg c = .create :: .adopt :: (c.frames.map .frame ++
       ([.flush, .check c.checksumsEqual, .mkdirs c.mkdirsFails, .rename c.renameFails] ++
-        (if c.hasMeta then [.saveMeta c.metaFails] else []) ++ [.saveInfo c.infoFails])) := by
+        (if c.hasMeta then [.saveMeta c.metaFails] else [.dropMeta c.metaFails]) ++ [.saveInfo c.infoFails])) := by
   simp [putObjectProg, List.append_assoc]
 
 end S3V.FsWrite
